@@ -6,12 +6,12 @@
 (*   DeclField(type, realm?)   AddMessage(admin?)   AddComponent                                     *)
 (*   DeclPair / PutPair        a LENGTH field and its DATA field (number + 1), placed together      *)
 (*   PutField(target)          place a declared field into a message, a component or a group         *)
-(*   UseComponent(target)      reference a component from a message or a group                       *)
+(*   UseComponent(target)      reference a component from a message, a group or a later component     *)
 (*   AddGroup(target)          new repeating group (count field, first member) in a message or       *)
 (*                             component, or nested in a group (= NestGroup)                          *)
 (*   ReuseCountField           a second message uses an existing group's count field with the same,  *)
 (*                             a reflagged, a reordered, a different-members or a different-nested    *)
-(*                             definition                                                             *)
+(*                             definition, or one whose nested group is reflagged / reordered         *)
 (*   Finish                    drops what was never filled in; the schema is exported as a LEAF line *)
 (* in a canonical order (declarations, containers, then members container by container) that only    *)
 (* removes permutations building the same schema.                                                    *)
@@ -157,11 +157,13 @@ PutPair ==
         \E n \in Pick((DeclaredNums \cap Range(PairNums)) \ Range(AllNumsSeq(Members(S, TItems(t))))), r \in Pick(BOOLEAN) :
             Step([S EXCEPT !.msgs[t.i].items = @ \o <<FieldE(n, r), FieldE(n + 1, r)>>], "PutPair", Rank(t))
 
+\* a component may be referenced from a message, from a group, and from a component declared after it
 UseComponent ==
-    \E t \in Pick({ x \in OpenTargets : x.w = "m" }), c \in Pick(DOMAIN S.comps), r \in Pick(BOOLEAN) :
-        /\ TRUE
+    \E t \in Pick(OpenTargets), c \in Pick(DOMAIN S.comps), r \in Pick(BOOLEAN) :
+        /\ t.w = "c" => c < t.i
         /\ S.comps[c].items # <<>>
-        /\ Step(Put(t, CompE(S.comps[c].name, r)), IF t.p = <<>> THEN "UseComponent" ELSE "UseComponentInGroup", Rank(t))
+        /\ Step(Put(t, CompE(S.comps[c].name, r)),
+                (IF t.w = "c" THEN "NestComponent" ELSE "UseComponent") \o (IF t.p = <<>> THEN "" ELSE "InGroup"), Rank(t))
 
 \* a new group needs a count field (declared now, of type NUMINGROUP) and a first member
 AddGroup ==
@@ -184,6 +186,14 @@ VariantSubs(sub) ==
     \cup (IF "members" \in Variants
           THEN { [v |-> "members_replaced", sub |-> [sub EXCEPT ![LastPlain(sub)].n = f]] : f \in IF LastPlain(sub) > 0 THEN FreeFor(sub) ELSE {} }
                \cup { [v |-> "members_added", sub |-> Append(sub, FieldE(f, FALSE))] : f \in FreeFor(sub) }
+          ELSE {})
+    \cup (IF "nested" \in Variants
+          THEN UNION { { [v |-> "nested_flags", sub |-> [sub EXCEPT ![j].sub[q].r = ~@]] : q \in DOMAIN sub[j].sub }     \* same members, other flag inside
+                       : j \in { q \in DOMAIN sub : sub[q].k = "g" } }
+               \cup UNION { IF Len(sub[j].sub) >= 2 /\ sub[j].sub[1].k = "f" /\ sub[j].sub[2].k = "f"
+                            THEN { [v |-> "nested_order", sub |-> [sub EXCEPT ![j].sub = [@ EXCEPT ![1] = sub[j].sub[2], ![2] = sub[j].sub[1]]]] }
+                            ELSE {}
+                       : j \in { q \in DOMAIN sub : sub[q].k = "g" } }
           ELSE {})
     \cup (IF "nested" \in Variants
           THEN UNION { { [v |-> "nested_dropped", sub |-> SelectSeq(sub, LAMBDA e : e # sub[j])] }                       \* nested group dropped
